@@ -217,6 +217,8 @@ pub struct BatchResult {
     pub samples: Vec<Value>,
     pub hashes: BTreeMap<u64, u64>,
     pub harness_errors: Vec<String>,
+    /// lanes that were stopped early because their children kept dying (each death is recorded as a failure)
+    pub lanes_stopped: Vec<String>,
     pub wall_s: f64,
 }
 
@@ -258,8 +260,8 @@ pub fn hang_limit(tier: Tier) -> Duration {
     match std::env::var("VERIF_HANG_SECS").ok().and_then(|s| s.parse::<u64>().ok()) {
         Some(s) => Duration::from_secs(s),
         None => match tier {
-            Tier::Quick => Duration::from_secs(90),
-            Tier::Thorough => Duration::from_secs(300),
+            Tier::Quick => Duration::from_secs(30),
+            Tier::Thorough => Duration::from_secs(120),
         },
     }
 }
@@ -439,12 +441,14 @@ pub fn run_batch(b: &Batch, prop: &str, tier: Tier, seed: u64, hashes: bool) -> 
                         .deaths
                         .push((at, if hung { format!("hang: {why}") } else { format!("abort: {why}") }));
                     deaths_here += 1;
-                    if deaths_here > 20 {
+                    // a lane that keeps dying has given its evidence: a hang costs a whole watchdog period twice
+                    let max_deaths = if hung { 2 } else { 12 };
+                    if deaths_here >= max_deaths {
                         result
                             .lock()
                             .unwrap()
-                            .harness_errors
-                            .push(format!("{world}/{mode}: more than 20 child deaths in one worker lane, giving up"));
+                            .lanes_stopped
+                            .push(format!("{world}/{mode}: worker lane stopped after {deaths_here} child deaths (last at run {at})"));
                         return;
                     }
                     next = at + step;
